@@ -137,3 +137,47 @@ def apply_rules(ctx, rc):
                      'the reservation is not given the list of directories '
                      'returned by _make_dirs (their ownership is lost)',
                      x.where(), key=key)
+
+
+def subtree_walk_rule(ctx, rc, F, visit, what, key_prefix):
+    """A routine that iterates ``.suboperations`` must reach ``visit`` (a
+    node predicate, e.g. the recursive call) for every complex
+    suboperation: an iteration may skip it only on a path whose isinstance
+    facts refute every complex record class."""
+    R = ctx.R
+    sg = ctx.E.super(F, lambda g: False)
+    loops = [x for x in sg.nodes if x.kind == 'out' and
+             x.cn.kind == 'for_next' and isinstance(
+                 x.cn.ast.iter, ast.Attribute) and
+             x.cn.ast.iter.attr == 'suboperations']
+    if not loops:
+        raise AnalysisError('%s does not iterate suboperations' % F.qualname)
+    complex_concrete = {c for c in R.concrete_records
+                        if 'suboperations' in R.record_fields[c]}
+    for lp in loops:
+        body = [d for d, l in lp.succ
+                if isinstance(l, tuple) and l[0] == 'iter']
+
+        def end(x, lp=lp):
+            return (x.kind == 'in' and x.cn is lp.cn) or \
+                x.id in sg.all_exits()
+        bad = None
+        n = 0
+        for b in body:
+            for path, facts in Q.enumerate_paths(sg, b, end, avoid=visit):
+                if sg.nodes[path[-1]].kind == 'raise_exit':
+                    continue
+                n += 1
+                if not complex_concrete <= _refuted(ctx, facts):
+                    bad = (path, complex_concrete - _refuted(ctx, facts))
+        key = '%s: %s for every complex suboperation' % (F.qualname, what)
+        if bad:
+            rc.violation(
+                '%s | %s' % (key_prefix, F.qualname),
+                '%s can skip a suboperation of class %s without %s: the '
+                'whole-subtree guarantee does not hold for records nested '
+                'below it' % (F.qualname, sorted(bad[1]), what),
+                lp.where(), sg.describe_path(bad[0]), key=key)
+        else:
+            rc.ok({'walker': F.qualname, 'visits': what,
+                   'skip_paths_checked': n}, key=key)
